@@ -175,6 +175,28 @@ extern "C" void c03_inverse_defined()
   vf_reach("inverse_defined");
 }
 
+// inverse longitude: for cone constants n = +-1/2, +-3/4 (so that n * dlon stays linear over the angle atoms) and c of the
+// same sign, toWGS84(toLambert(lat, lon0 + dlon)).longitude == lon0 + dlon
+extern "C" void c03_inverse_longitude()
+{
+  const double e = ecc();
+  const double n = vf_paramf("n");
+  const double c = vf_f64("c"), xs = vf_f64("xs"), ys = vf_f64("ys");
+  if (n < 0) vf_assume((c <= -1e6) & (c >= -1e8));
+  else vf_assume((c >= 1e6) & (c <= 1e8));
+  vf_assume((xs >= -1e7) & (xs <= 1e7) & (ys >= -1e8) & (ys <= 1e8));
+  const double lon0 = vf_angle("lon0", -M_PI, M_PI);
+  LambertConverter conv(lon0, n, c, xs, ys, e);
+  WGS84Coordinates w;
+  w.latitude = n < 0 ? vf_angle("lat", -75 * DEG, -15 * DEG) : vf_angle("lat", 15 * DEG, 75 * DEG);
+  const double dlon = vf_angle("dlon", -0.55, 0.55);
+  w.longitude = lon0 + dlon;
+  Eigen::Vector2d p = conv.toLambert(w);
+  WGS84Coordinates b = conv.toWGS84(p);
+  vf_check(vf_angle_eq(b.longitude, w.longitude), "inverse-returns-the-longitude");
+  vf_reach("inverse_longitude");
+}
+
 // full round trip on concrete zones (executed concretely; symbolically only definedness is collected)
 extern "C" void c03_round_trip()
 {
